@@ -28,6 +28,11 @@ pub struct Case {
     /// reply the server cannot deliver
     #[serde(default)]
     pub small_window: bool,
+    /// what the out-of-credit client registers next: 0 a subscriber on topic B, 1 a replier on
+    /// the stalled pub/sub topic (wrong pattern: must be refused), 2 an invalid name (must be
+    /// refused), 3 a non-registration frame
+    #[serde(default)]
+    pub hung_kind: u8,
 }
 
 async fn reg(conn: &quinn::Connection, f: Frame, dl: Duration) -> Option<BiStream> {
@@ -192,7 +197,13 @@ async fn run_inner(certs: &Certs, c: &Case) -> Outcome {
         if let Ok(bi) = tokio::time::timeout(Duration::from_secs(5), c_sub.open_bi()).await {
             if let Ok(bi) = bi {
                 let mut s = BiStream::from(bi);
-                let _ = tokio::time::timeout(Duration::from_secs(2), s.send(reg_sub(ns_b, "eee"))).await;
+                let f = match c.hung_kind % 4 {
+                    0 => reg_sub(ns_b, "eee"),
+                    1 => reg_rep(ns_a, "aaa"),
+                    2 => reg_sub("ab", "x"),
+                    _ => msg(b"not-a-registration".to_vec()),
+                };
+                let _ = tokio::time::timeout(Duration::from_secs(2), s.send(f)).await;
                 hung_stream = Some(s);
             }
         }
@@ -275,15 +286,17 @@ pub fn strategy() -> BoxedStrategy<Case> {
         2 => 99u16..105,
         3 => Just(150u16),
         2 => Just(260u16),
+        1 => Just(400u16),
+        1 => Just(520u16),
         1 => 105u16..300,
     ];
-    (after, prop_oneof![2 => Just(0u8), 1 => 1u8..90], 0u8..3, any::<bool>(), 0u8..4, any::<u16>(), prop::bool::weighted(0.4))
-        .prop_map(|(after, before, npubs, mixed, reads, seed, small_window)| Case { after, before, npubs, mixed, reads, seed, small_window })
+    (after, prop_oneof![2 => Just(0u8), 1 => 1u8..90], 0u8..3, any::<bool>(), 0u8..4, any::<u16>(), (prop::bool::weighted(0.4), 0u8..4))
+        .prop_map(|(after, before, npubs, mixed, reads, seed, (small_window, hung_kind))| Case { after, before, npubs, mixed, reads, seed, small_window, hung_kind })
         .boxed()
 }
 
 pub fn run(ctx: &mut Ctx) {
-    ctx.rule = "fresh real server per case; topic A: a raw subscriber that stops reading after 0-3 frames, 1-3 publishers flooding 64 KiB messages until they are back-pressured themselves (the observable sign the router is stuck), b in 0..90 registrations on A before the stall and n in {0, 50, 99..104, 150, 260, random} after it (generated kinds, spread over several connections); then topic B: a raw publisher/subscriber pair and a client-library publisher/subscriber pair must register and exchange a message within 12 s (a control exchange on B succeeded in the same case before the stall); non-trivial = the stall was reached and more registrations than the router's queue holds (101) were made after it".into();
+    ctx.rule = "fresh real server per case; topic A: a raw subscriber that stops reading after 0-3 frames, 1-3 publishers flooding 64 KiB messages until they are back-pressured themselves (the observable sign the router is stuck), b in 0..90 registrations on A before the stall and n in {0, 50, 99..104, 150, 260, 400, 520, random} after it (generated kinds, spread over several connections); then topic B: a raw publisher/subscriber pair and a client-library publisher/subscriber pair must register and exchange a message within 12 s (a control exchange on B succeeded in the same case before the stall); non-trivial = the stall was reached and more registrations than the router's queue holds (101) were made after it".into();
     ctx.assumptions.push("one stall mechanism (a non-reading subscriber); the failure mode is a deterministic dead-lock, so the deadline is not a race".into());
     let env = match Env::new() {
         Ok(e) => e,
@@ -293,7 +306,7 @@ pub fn run(ctx: &mut Ctx) {
     let handle = env.rt.handle().clone();
     ctx.shrink_iters = 6;
     ctx.workers = ctx.workers.min(4);
-    ctx.search("stall-scripts", strategy, ctx.tier.pick(16, 300), true, move |c: &Case| {
+    ctx.search("stall-scripts", strategy, ctx.tier.pick(48, 400), true, move |c: &Case| {
         crate::core::watchdog::tick();
         match crate::core::catch(|| handle.block_on(run_case(&certs, c))) {
             Ok(o) => o,
